@@ -91,4 +91,11 @@ CHECKS["C15"] = dict(
     note="Pairs, not the full product, of deviations; which errno is returned is C16's business; allocation measured with runtime.MemStats in a process that runs one call at a time.",
 )
 
+CHECKS["C08"] = dict(
+    technique="TLA+ generator of host/guest signatures and the crossing law (Boundary.tla); crossings recorded at the Go caller, inside host functions of five definition styles and inside the guest, validated by TLC against BoundaryTrace.tla",
+    text="TLC generates every signature with up to 2-3 parameters and up to 2 results over {i32,i64,f32,f64,externref} and cliff families (6-17 homogeneous and alternating parameters, 3-10 results, six i32 followed by 1-4 wide values) that cross the 7th integer / 8th float register and stack alignment; for each the driver builds a guest that forwards its parameters to an imported host function and returns its results, a pass-through export and an export that compares the host's results inside the guest; host functions are defined by reflection (without / with context / with module), api.GoFunction and api.GoModuleFunction, exports are called through Call and CallWithStack, and the host function calls back into the guest; value pools include negative i32, all-high-bit i64, quiet and signaling NaNs with payloads, -0 and 48-bit externrefs. Every crossing (Go->guest->host parameters, host->guest->Go results, callback, Go->guest->Go, guest-side view) is logged with sent and seen tokens and TLC decides each one.",
+    design_ref="§4 C08",
+    note="i32/f32 compared on 32 significant bits at the Go side; funcref values are not generated; amd64 compiler.",
+)
+
 NOT_YET = "check not built yet in this round (work in progress; see DESIGN.md §4)"
